@@ -546,3 +546,77 @@ def check_no_early_exit(rep, rule, fi, ev):
             {'loops': [f[1] for f in early]}, line=fi.node.lineno,
             witness='a lambda ahead of a local def in the (unordered) set of '
             'reaching function definitions')
+
+
+def check_loop_target_kill(model, rep, rule):
+  """The CFG node of a for statement's header lies on both edges out of the loop
+  head: into the body and past the loop (zero iterations, or the iterable is
+  exhausted).  The transfer functions read kill (liveness) and gen / kill
+  (reaching definitions) of a node from the Scope recorded on its AST node.  If
+  that scope has the loop *target* as modified, the value the target holds
+  before the loop is killed on the exit edge too, although no iteration may
+  have assigned it.  Decided by following ActivityAnalyzer.visit_For's enter /
+  exit calls on a symbolic scope stack: which fields are visited inside the
+  scope that is recorded on the node the CFG uses as loop header."""
+  CFGM = 'malt/pyct/cfg.py'
+  ACTM = 'malt/pyct/static_analysis/activity.py'
+  cf = model.func(CFGM, 'AstToCfg.visit_For')
+  cp = cf.params()[0]
+  heads = [c for c in ast.walk(cf.node) if isinstance(c, ast.Call) and core.norm(
+      c.func) == 'self.builder.enter_loop_section' and len(c.args) == 2]
+  if len(heads) != 1:
+    raise core.AnalysisError('cfg.visit_For: loop header not identified')
+  head_field = core.norm(heads[0].args[1])
+  if not head_field.startswith(cp + '.'):
+    raise core.AnalysisError('cfg.visit_For: loop header is not a field of the statement')
+  head_field = head_field[len(cp) + 1:]
+  af = model.func(ACTM, 'ActivityAnalyzer.visit_For')
+  ap = af.params()[0]
+  stack, visits, recorded = [], {}, {}
+
+  def walk(stmts):
+    for st in stmts:
+      if isinstance(st, (ast.If, ast.With, ast.For, ast.While, ast.Try)):
+        if any(isinstance(c, ast.Call) and core.norm(c.func) in (
+            'self._enter_scope', 'self._exit_and_record_scope', 'self._exit_scope')
+               for c in ast.walk(st)):
+          raise core.AnalysisError('activity.visit_For: scopes entered conditionally')
+        continue
+      for c in core.preorder(st):
+        if not isinstance(c, ast.Call):
+          continue
+        f = core.norm(c.func)
+        if f == 'self._enter_scope':
+          sid = len(visits)
+          visits[sid] = []
+          stack.append(sid)
+        elif f in ('self._exit_and_record_scope', 'self._exit_scope'):
+          if not stack:
+            raise core.AnalysisError('activity.visit_For: scope stack underflow')
+          sid = stack.pop()
+          if f.endswith('record_scope') and c.args:
+            tag = c.args[1] if len(c.args) > 1 else next(
+                (k.value for k in c.keywords if k.arg == 'tag'), None)
+            recorded[sid] = (core.norm(c.args[0]), core.norm(tag) if tag is not None
+                             else 'anno.Static.SCOPE')
+        elif f in ('self.visit', 'self.visit_block') and c.args and stack:
+          visits[stack[-1]].append(core.norm(c.args[0]))
+  walk(af.node.body)
+  hdr = [sid for sid, (n_, tag) in recorded.items()
+         if n_ == '%s.%s' % (ap, head_field) and tag == 'anno.Static.SCOPE']
+  if len(hdr) != 1:
+    raise core.AnalysisError('activity.visit_For: the scope of the loop header node '
+                             'was not found')
+  inside = visits[hdr[0]]
+  rep.check('%s.target' % ap not in inside, rule,
+            '%s:loop-target-killed-on-exit-edge' % af.site,
+            'the loop target is visited (as a store) inside the scope recorded on '
+            '%s.%s, the node the CFG uses as loop header: that node also lies on '
+            'the edge that leaves the loop, so the value the target had before a '
+            'zero-iteration loop is killed -- not live across the preceding '
+            'statement, not among the reaching definitions after the loop'
+            % (ap, head_field),
+            {'header_node': head_field, 'visited_in_header_scope': inside},
+            line=af.node.lineno,
+            witness='if c: i = 5 / else: i = 6 / for i in xs: pass / return i  with xs == []')
+
